@@ -226,7 +226,12 @@ func runWp(cfg wpCfg) (*wpRun, map[string]int) {
 						wr.byBat.Store(b, id)
 						wr.log(wpEvent{kind: "call", w: id, a: uint64(merge)})
 					}
+					before, blen := append([]byte(nil), b.Dump()...), b.Len()
 					err = db.Write(b, wo)
+					// C20: the callee must not modify the caller's batch (e.g. by appending merged records to it)
+					if b.Len() != blen || !bytes.Equal(before, b.Dump()) {
+						wr.fail("write:caller-batch-modified", fmt.Sprintf("call %d: DB.Write changed the caller's batch: Len %d -> %d, %d -> %d bytes", id, blen, b.Len(), len(before), len(b.Dump())))
+					}
 				}
 				if !viaTx {
 					wr.log(wpEvent{kind: "ret", w: id, s: concErrClass(err)})
